@@ -15,7 +15,7 @@ pub struct BytesSpec {
     pub seed: u32,
 }
 
-pub const N_CLASSES: u8 = 11;
+pub const N_CLASSES: u8 = 12;
 
 pub fn class_name(c: u8) -> &'static str {
     match c % N_CLASSES {
@@ -29,7 +29,8 @@ pub fn class_name(c: u8) -> &'static str {
         7 => "uuid-text",
         8 => "gzip-member",
         9 => "zlib-stream",
-        _ => "common-prefix",
+        10 => "common-prefix",
+        _ => "framing-tail",
     }
 }
 
@@ -139,6 +140,19 @@ impl BytesSpec {
                     out[0] = b'a' + (self.seed % 26) as u8;
                 }
             }
+            11 => {
+                // random bytes that end the way HTTP framing does (payloads are opaque: a body may
+                // end in CR LF, in a blank line, in what looks like a last chunk or a boundary)
+                while out.len() < len {
+                    let v = xorshift(&mut st).to_le_bytes();
+                    let take = (len - out.len()).min(8);
+                    out.extend_from_slice(&v[..take]);
+                }
+                let tail = framing_tail(self.seed);
+                if len >= tail.len() {
+                    out[len - tail.len()..].copy_from_slice(tail);
+                }
+            }
             10 => {
                 // the first 4 KiB are the same for every seed, the rest depends on it: two such
                 // payloads of one length agree in length and beginning and differ further on
@@ -221,6 +235,12 @@ pub fn fresh_uuid(literal: u32) -> Uuid {
 }
 
 /// The id of client number `idx` in a case with the given salt.
+/// The ending of a payload of the "framing-tail" class.
+pub fn framing_tail(seed: u32) -> &'static [u8] {
+    const TAILS: [&[u8]; 8] = [b"\r\n", b"\r\n\r\n", b"0\r\n\r\n", b"\n", b"\r", b"\r\n0\r\n\r\n", b"--boundary--\r\n", b"\r\n--"];
+    TAILS[(seed as usize / 7) % TAILS.len()]
+}
+
 pub fn client_uuid(salt: u32, idx: u8) -> Uuid {
     // a few salts give client ids with a peculiar shape (the fixture corpus uses salts 1900-1909,
     // which must keep their ids)
